@@ -240,6 +240,22 @@ func (gp *GenProgram) setupSpec() {
 			}
 		}
 	}
+	if gp.Switch {
+		// C02 promises verdict, prefix and tokens under -switch, not the furthest-failure register:
+		// an unordered choice legitimately skips attempts that the ordered one makes
+		for _, key := range []string{"Init.$rule", "Init.memoizedResult"} {
+			if fc := u.CS.Funcs[key]; fc != nil {
+				var keep []*Clause
+				for _, e := range fc.Ensures {
+					if strings.Contains(e.Tag, "C11") {
+						continue
+					}
+					keep = append(keep, e)
+				}
+				fc.Ensures = keep
+			}
+		}
+	}
 	u.Provider = gp.provider
 	u.NoSplit = map[string]bool{"RT": true, "inputOK": true}
 }
@@ -361,12 +377,15 @@ func (gp *GenProgram) starInvariant(s *PNode, ord int) []*Clause {
 	if gp.Ast {
 		texts = append(texts,
 			[2]string{fmt.Sprintf("A_%d(position, live()) == A_%d(entry(position), entry(live()))", k, k), "C03"},
-			[2]string{fmt.Sprintf("M_%d(position, maxToken) == M_%d(entry(position), entry(maxToken))", k, k), "C11"},
+			[2]string{fmt.Sprintf("M_%d(position, maxToken) == M_%d(entry(position), entry(maxToken))", k, k), "C11"}, // dropped under -switch below
 			[2]string{"forall(j, imp(j <= entry(tokenIndex), absAt(j) == entry(absAt(j))))", "C03"})
 	}
 	var out []*Clause
 	for i, tt := range texts {
 		t := tt[0]
+		if gp.Switch && tt[1] == "C11" {
+			continue
+		}
 		e, err := parseExpr(t)
 		if err != nil {
 			panic(err)
@@ -456,7 +475,17 @@ func (gp *GenProgram) verifyClosures(r *Run, only map[string]bool) {
 			}
 			add(pr.Body)
 		}
-		gp.runClosure(r, key, fc, c, fname, extra)
+		gp.runClosure(r, key, fc, c, fname, extra+gp.Spec.FirstAxioms(""))
+	}
+	// spec-level lemmas: OK(r,p) => buf[p] in FIRST(r), one query per rule
+	for _, pr := range gp.Spec.Rules {
+		if !gp.Spec.hasFirstLemma(pr) || (only != nil && !only[pr.Name]) {
+			continue
+		}
+		ob := &Obligation{Name: fmt.Sprintf("%s/spec#lemma[first.%s]", u.Name, pr.Name), Kind: "lemma", Fn: "spec", Unit: u.Name, Props: "C02",
+			Detail: "OK(" + pr.Name + ",p) implies that the rune at p is in the first set pegspec computed for " + pr.Name, Goal: "first-set lemma", PC: "true"}
+		ob.Query = gp.Spec.FirstLemmaQuery(pr, u.preludeText())
+		r.Obls = append(r.Obls, ob)
 	}
 	r.Programs++
 	for a := range u.Assumptions {
